@@ -203,6 +203,27 @@ class CellCtx:
         self._record(rec)
         return rec["status"]
 
+    def external(self, name, status, detail="", reproduced=None, key=None, canary=False, witness=None, solver_s=0.0):
+        """An obligation decided by another solver-based engine (CrossHair): status unsat (confirmed over all paths),
+        sat (counterexample; `reproduced` says whether it replayed on the un-instrumented code) or unknown."""
+        if self.replay_req is not None:
+            if self.replay_req[0] == name:
+                self.replay_outcome = (bool(reproduced), detail)
+            return "replayed"
+        rec = {"name": name, "canary": canary, "status": status, "detail": detail, "key": key or name, "n_pairs": 1, "n_atoms": 1,
+               "solver_s": round(solver_s, 2), "engine": "crosshair"}
+        if status == "sat":
+            rec["reproduced"] = reproduced
+            rec["replay_detail"] = detail
+            rec["witness"] = witness or {}
+            rec["bwitness"] = {}
+        if not canary and status != "unknown":
+            self.nontrivial_hashes.add(hashlib.sha1(name.encode()).hexdigest())
+        if len(self.samples) < 1 and not canary:
+            self.samples.append({"obligation": name, "engine": "crosshair", "result": status, "detail": detail[:300]})
+        self._record(rec)
+        return status
+
     def canary(self, name, lhs, rhs, replay=None, assumptions=()):
         return self.equal(name, lhs, rhs, replay=replay, canary=True, assumptions=assumptions)
 
